@@ -15,6 +15,9 @@ NOT_APPLICABLE = {
 SM_KICK = [sm.CalcCoefficiants, sm.UpdateSM, sm.KickMapApply, sm.SourceMapCtor, sm.SourceMapCtor7, sm.KickMapCtor,
            sm.RFCalcKick, sm.RFKickMapLinearCtor, sm.RFKickMapSinCtor, sm.DriftMapCtor, sm.WakePotentialMapUpdate]
 SM_FP = [sm.FokkerPlanckCtor, sm.FokkerPlanckApply]
+Z_UNITS = [z.FreeSpaceCSRCalc, z.ResistiveWallCalc, z.ConstImpedanceCalc, z.ParallelPlatesCalc, z.ImpedanceAddAssign,
+           z.ImpedanceCtorRuler, z.ImpedanceCtorVec, z.ImpedanceCtorZero, z.FreeSpaceCSRCtor, z.ResistiveWallCtor, z.ConstImpedanceCtor,
+           z.ParallelPlatesCtor, z.CollimatorCtor, z.MakeImpedance]
 TECH = 'contract-based deductive verification: contracts (specs/*.py) enforced on the real functions by a VCG over the clang AST, z3 (cvc5 second opinion); lemma layer over contract symbols'
 
 def _kick_sweep():
@@ -119,7 +122,7 @@ PROPERTIES = {
         'technique': TECH,
     },
     'C07': {
-        'units': [ef.UpdateCSR, z.FreeSpaceCSRCalc, z.ResistiveWallCalc, z.ConstImpedanceCalc],
+        'units': [ef.UpdateCSR, z.FreeSpaceCSRCalc, z.ResistiveWallCalc, z.ConstImpedanceCalc, z.ParallelPlatesCalc, z.CollimatorCtor, z.MakeImpedance],
         'lemmas': [],
         'level': 'other',
         'claim': 'for a passive impedance the CSR spectrum is non-negative at every frequency and bunch, the integrated power is the frequency step times the sum of the spectrum and is non-negative '
@@ -130,14 +133,20 @@ PROPERTIES = {
         'technique': TECH,
     },
     'C16': {
-        'units': [z.FreeSpaceCSRCalc, z.ResistiveWallCalc, z.ConstImpedanceCalc, z.ImpedanceAddAssign],
-        'native_sweep': {'harness': 'ef_replay', 'runs': [['z', n_] for n_ in list(range(2, 40)) + [255, 256, 257, 1023, 1024]]},
+        'units': Z_UNITS,
+        'native_sweep': {'harness': 'ef_replay', 'runs': [['z', n_] for n_ in list(range(2, 40)) + [255, 256, 257, 1023, 1024]] + z.FACTORY_SWEEP},
         'lemmas': [],
         'level': 'other',
-        'claim': 'free-space CSR, resistive wall and constant impedance return exactly n samples (n >= 2), zero above n/2, non-negative real part, with the cube-root / square-root / constant laws; '
-                 'operator+= is the element-wise sum over the common length',
-        'assumptions': [A_IDEAL, A_LIB, DROPS, 'libm: pow(x>=0,y) >= 0, sqrt(x>=0) >= 0'],
-        'uncovered': ['ParallelPlatesCSR (Airy sums), CollimatorImpedance, the factory makeImpedance', 'causality (one-sidedness of the wake) and asymptotics', 'n in {0,1}'],
+        'claim': 'every impedance model (free-space CSR, parallel plates, resistive wall, constant, collimator) returns exactly n samples (n >= 2), zero above n/2, non-negative real part; '
+                 'cube-root law (free space), square-root law with a frequency-independent prefactor and Im = -Re (resistive wall), positive constant resistance Z0/pi*ln(outer/inner) (collimator); '
+                 'every model constructor stores exactly what its __calcImpedance returns for the same arguments; operator+= is the element-wise sum over the common length; '
+                 'the factory returns nullptr iff nothing is selected and otherwise the element-wise sum of exactly the selected models with the stated arguments (CSR models at f0 = c/(2 pi R), wall at f_rev with L = c/f_rev and radius |gap|/2) plus the file samples',
+        'assumptions': [A_IDEAL, A_LIB, DROPS, 'libm: pow(x>=0,y) >= 0, sqrt(x>=0) >= 0, log(x>1) > 0; Airy functions uninterpreted',
+                        'Impedance::readData (iostream parsing of the impedance file) is not under contract: its result is an arbitrary vector of any length',
+                        'model value symbols Z_<Model>(args,k) in the factory contract are definitional: each model constructor is a deterministic function of its arguments',
+                        'ParallelPlatesCSR: the mode count 2*f*gap/c converted to uint32_t is below 2^31 (domain assumption on the derived value, VacuumGap*f_max < 3e17 m/s)',
+                        'catch(...) in ParallelPlatesCSR is modelled as a nondeterministic jump to the handler with the try-body writes havoced'],
+        'uncovered': ['parallel-plates value law (Airy sums): only shape and passivity are proved', 'causality (one-sidedness of the wake) and asymptotics (wide gaps, below cutoff)', 'n in {0,1}', 'finiteness of the samples (ideal arithmetic has no infinities)'],
         'explanation': 'shape, passivity and closed-form posts of the __calcImpedance functions',
         'technique': TECH,
     },
@@ -168,14 +177,14 @@ PROPERTIES = {
         'units': SM_KICK + SM_FP + [sm.IdentityApply, sm.KickMapApplyTo, sm.FokkerPlanckApplyTo,
                                     ps.RulerCtor, ps.SimpsonWeights, ps.UpdateXProjection, ps.UpdateYProjection, ps.Integrate, ps.Normalize, ps.Average, ps.Variance, ps.Swap,
                                     ef.PadBunchProfiles, ef.WakePotential, ef.UpdateCSR,
-                                    z.FreeSpaceCSRCalc, z.ResistiveWallCalc, z.ConstImpedanceCalc, z.ImpedanceAddAssign, mainspec.MainConfig],
+                                    mainspec.MainConfig] + Z_UNITS,
         'leaves': [leaf.UpperPow2Leaf, leaf.FPApplyToLeaf, leaf.KickApplyToLeaf, leaf.PSxLeaf],
         'lemmas': [],
         'level': 'other',
         'claim': 'every array subscript, pointer range (copy_n/fill_n/inner_product/FFT buffers), float-to-integer conversion, signed overflow, unsigned index product and division in the units under contract '
                  'is proved defined under the class invariants, and main establishes the padded-buffer precondition for every bucket; unbounded in all sizes',
         'assumptions': [A_IDEAL, A_LIB, DROPS, 'libraries are memory safe when their stated preconditions hold', 'documented option domain (see MainConfig.requires and domain_after)'],
-        'uncovered': ['functions not under contract: PhaseSpace constructors, PhaseSpaceFactory (TXT/HDF5 start distributions), HDF5File, ProgramOptions, ParallelPlatesCSR, makeImpedance, RotationMap, Display',
+        'uncovered': ['functions not under contract: PhaseSpace constructors, PhaseSpaceFactory (TXT/HDF5 start distributions), HDF5File, ProgramOptions, Impedance::readData, RotationMap, Display',
                       'uninitialised reads (tables are written before use by construction order, checked only where a unit reads what it wrote)',
                       ],
         'explanation': 'automatic safety obligations of all units',
